@@ -24,7 +24,7 @@ ASSUMPTIONS = ['dtcwt 0.14 Transform2d.inverse is the specification for full pyr
                'absent entries are specified by the statement itself: same result as explicit zeros', 'float64']
 TIMEOUT = {'quick': 900, 'thorough': 3300}
 WORKER_BUDGET = {'quick': 600, 'thorough': 2700}
-MIN_HELD = {'quick': 300, 'thorough': 1500}
+MIN_HELD = {'quick': 300, 'thorough': 59033}
 KF_LOW, KF_ENC, KF_CROP = 'absent-lowpass', 'absent-encoding-1d-empty', 'absent-highpass-needs-crop'
 ENCODINGS = ['None', '0-dim', '1d-empty']
 
